@@ -12,6 +12,7 @@ RULE = ("Hypothesis-generated scenarios (profile 'mutex' 75%, 'mixed' 25%): 2-6 
         "evictions by a successful preempt, ends) - a SUCCESS while another live process holds is a violation; after "
         "every event held_by_process/in_use/available must describe exactly the model holder. Non-trivial = some "
         "process had to wait for a resource or a holder was preempted. distinct = SHA-1 of the scenario text.")
+RULE = RULE + simprop.RULE_SUFFIX
 ASSUMPTIONS = ["trace oracles in pbt/simtrace.py (soundness rules DESIGN.md par. 2.1)",
                "a process never acquires a resource it already holds; release only of resources it holds"]
 
